@@ -249,7 +249,7 @@ def pdb_text(atoms, *, ter=True, end=True, header=True):
         x, y, z = a["xyz"]
         lines.append(atom_line(serial, a["name"], a["res_name"], a["chain"],
                                a["res_seq"], x, y, z, record=a["record"],
-                               icode=a["icode"]))
+                               icode=a["icode"], alt=a.get("alt", "")))
         serial += 1
         prev = a
     if ter and prev is not None and prev["record"] == "ATOM":
